@@ -220,6 +220,9 @@ def d2_provenance(ctx):
         ok = is_arange or is_order
         if isinstance(stmt, ast.AugAssign):
             ok = False
+        if is_arange and isinstance(tgt, ast.Subscript):
+            # arange scattered *through* an index vector builds the inverse permutation of that vector
+            ok = False
         if is_order and isinstance(tgt, ast.Subscript):
             # order fills the leading (analog) part: slice [:order.size]
             sl = tgt.slice
@@ -229,7 +232,8 @@ def d2_provenance(ctx):
                                    norm(ast.parse(f"{loc_name(val)}.shape[0]", mode="eval").body))
         ctx.check(ok, fi, stmt, stmt, "store into raw_channel_order is the identity initialiser or the returned sort index",
                   f"`{src(stmt)}` stores something other than arange(nc) / the index returned with the geometry into "
-                  "raw_channel_order", key="order-store:" + norm(val)[:80])
+                  "raw_channel_order" + (" (arange scattered through an index vector is that vector's INVERSE permutation: columns follow the geometry only "
+                                         "when the sort permutation is its own inverse)" if is_arange and isinstance(tgt, ast.Subscript) else ""), key="order-store:" + norm(val)[:80])
 
 
 def d2b_returned_index(ctx):
